@@ -37,4 +37,18 @@ theorem eReal_orth (M : Nat) (hM : 0 < M) (d : ℤ) :
     ∑ l ∈ Finset.range M, eReal ((d : ℝ) * (l : ℝ) / (M : ℝ)) = if (M : ℤ) ∣ d then (M : ℂ) else 0 :=
   orth_of_character eReal eReal_add eReal_int eReal_ker M hM d
 
+theorem eReal_norm (t : ℝ) : ‖eReal t‖ = 1 := by
+  simp only [eReal, Complex.norm_exp]
+  simp
+
+/-- the focal field of a flat pupil is nowhere brighter than at the geometric focus -/
+theorem flat_peak_is_max (n : Nat) (dx κ : ℝ) (a : ℂ) (ξ : ℝ) :
+    ‖Model.C03.F1 eReal n dx κ (fun _ => a) ξ‖ ≤ ‖Model.C03.F1 eReal n dx κ (fun _ => a) 0‖ := by
+  have h0 : Model.C03.F1 eReal n dx κ (fun _ => a) 0 = (n : ℂ) * a := by simp [F1_eq_sum, eReal_zero]
+  rw [h0, F1_eq_sum]
+  calc ‖∑ i ∈ Finset.range n, a * eReal (Model.C03.coord n i * dx * ξ * κ)‖
+      ≤ ∑ i ∈ Finset.range n, ‖a * eReal (Model.C03.coord n i * dx * ξ * κ)‖ := norm_sum_le _ _
+    _ = ∑ _i ∈ Finset.range n, ‖a‖ := by simp [eReal_norm]
+    _ = ‖(n : ℂ) * a‖ := by simp
+
 end C03Lemmas
